@@ -326,7 +326,7 @@ class Check:
         if self.violations:
             os.makedirs(os.path.join(REPLAYS, self.pid), exist_ok=True)
             seen = set()
-            for v in self.violations[:50]:
+            for v in self.violations[:12]:
                 h = hashlib.sha256(json.dumps([v["clause"], v["sig"]], default=str).encode()).hexdigest()[:12]
                 if h in seen:
                     continue
@@ -335,7 +335,7 @@ class Check:
                 with open(path, "w") as f:
                     json.dump(v, f, indent=1, default=str)
                 print("VIOLATION property=%s replay=%s clause=%s sig=%s" % (self.pid, path, v["clause"], str(v["sig"])[:200]))
-            if len(self.violations) > 50:
+            if len(self.violations) > 12:
                 print("... %d violations in total" % len(self.violations))
             return 1
         print("OK property=%s tier=%s wall=%.1fs states=%d traces=%d evals=%d nontrivial=%d" % (
@@ -380,3 +380,117 @@ def to_tla(v):
             return "<<>>"
         return "[" + ", ".join("%s |-> %s" % (k, to_tla(x)) for k, x in v.items()) + "]"
     raise TypeError(type(v))
+
+
+# ----------------------------------------------------------------------------- numbers for Dec.tla
+def num(x):
+    """Python number -> record for Dec.tla!Num: value = (-1)^n * M * 10^e, M as base-1e4 limbs.
+    floats use their shortest round-trip repr (exactly what Python prints)."""
+    from decimal import Decimal
+    from fractions import Fraction
+    if isinstance(x, bool):
+        x = int(x)
+    if isinstance(x, int):
+        d = Decimal(x)
+    elif isinstance(x, Decimal):
+        d = x
+    elif isinstance(x, Fraction):
+        den, k = x.denominator, 0
+        while den % 10 == 0:
+            den //= 10
+        while den % 2 == 0:
+            den //= 2
+        while den % 5 == 0:
+            den //= 5
+        if den == 1:       # finite decimal: exact
+            k = 0
+            while (x * 10 ** k).denominator != 1:
+                k += 1
+            iv = int(x * 10 ** k)
+            d = Decimal((1 if iv < 0 else 0, tuple(int(c) for c in str(abs(iv))), -k))
+        else:              # not a finite decimal: 40 significant digits
+            import decimal
+            with decimal.localcontext() as ctx:
+                ctx.prec = 40
+                d = Decimal(x.numerator) / Decimal(x.denominator)
+    else:
+        f = float(x)
+        if f != f or f in (float("inf"), float("-inf")):
+            raise ValueError("non-finite value cannot be logged: %r" % (x,))
+        d = Decimal(repr(f))
+    sign, digits, exp = d.as_tuple()
+    i = int("".join(map(str, digits))) if digits else 0
+    while i and i % 10 == 0:
+        i //= 10
+        exp += 1
+    m = []
+    while i:
+        m.append(i % B)
+        i //= B
+    if not m:
+        return {"n": False, "m": [], "e": 0}
+    return {"n": bool(sign), "m": m, "e": int(exp)}
+
+
+def unnum(r):
+    from fractions import Fraction
+    v = 0
+    for k, limb in enumerate(r["m"]):
+        v += limb * B ** k
+    v = Fraction(v) * Fraction(10) ** r["e"]
+    return -v if r["n"] else v
+
+
+def run_cases(module, cases, check=None, nproc=None, cfg_extra="", env=None, timeout=3600,
+              key="CASES", wrap=True):
+    """Validate a batch of recorded cases with TLC: spec/<module>.tla reads IOEnv.CASES, walks the
+    batch (one state per case) and reports verdicts with PrintT(<<"VIOL", caseIndex, ...>>).
+    Returns list of (global_case_index, payload) verdicts; raises MachineryError unless every case
+    was consumed (POSTCONDITION Done)."""
+    import concurrent.futures as cf
+    if not cases:
+        return []
+    nproc = nproc or NCPU
+    parts = chunks(list(range(len(cases))), min(nproc, len(cases)))
+    cfg = "SPECIFICATION Spec\nINVARIANT Report\nPOSTCONDITION Done\nCHECK_DEADLOCK FALSE\n" + cfg_extra
+
+    def one(idx):
+        wd = tempfile.mkdtemp(prefix="cases_", dir=scratch())
+        path = os.path.join(wd, "cases.json")
+        with open(path, "w") as f:
+            json.dump([cases[j] for j in idx] if wrap else cases[idx[0]], f)
+        e = {key: path}
+        if env:
+            e.update(env)
+        r = run_tlc(module, cfg, workers=1, env=e, timeout=timeout, workdir=wd)
+        if "Done" in r.out and "violated" in r.out or r.violation:
+            raise MachineryError("trace not fully consumed by %s:\n%s" % (module, r.out[-3000:]))
+        shutil.rmtree(wd, ignore_errors=True)
+        return idx, r
+
+    verdicts = []
+    with cf.ThreadPoolExecutor(max_workers=nproc) as ex:
+        for idx, r in ex.map(one, parts):
+            if check is not None:
+                check.add_tlc(r)
+            for tag, payload in r.prints:
+                if tag == "VIOL":
+                    verdicts.append((idx, payload))
+    out = []
+    for idx, payload in verdicts:
+        # payload is the raw text after the tag: "<local index>, rest"
+        m = re.match(r"\s*(\d+)\s*,?\s*(.*)$", payload if isinstance(payload, str) else str(payload))
+        if not m:
+            raise MachineryError("unparseable verdict %r" % (payload,))
+        out.append((idx[int(m.group(1)) - 1], m.group(2)))
+    return out
+
+
+def parse_set(payload):
+    """'{"a", "b"}' (TLA+ set of strings as printed by TLC) -> ['a', 'b']"""
+    return re.findall(r'"([^"]+)"', payload)
+
+
+def load_replay(path):
+    with open(path) as f:
+        return json.load(f)
